@@ -10,7 +10,8 @@ VERIF = os.path.dirname(os.path.dirname(os.path.abspath(__file__)))
 REPO = os.environ.get("VERIF_REPO", "/repo")
 RSASS = os.path.join(REPO, "rsass")
 CACHE = os.environ.get("VERIF_CACHE", "/var/tmp/kaj-rsass-verif")
-EVIDENCE_DIR = os.path.join(VERIF, "evidence")
+# evidence of the registered checks describes /repo; a developer run against a scratch worktree (VERIF_REPO) keeps its own
+EVIDENCE_DIR = os.path.join(VERIF, "evidence") if REPO == "/repo" else os.path.join(CACHE, "evidence")
 REPLAY_DIR = os.path.join(EVIDENCE_DIR, "replay")
 KNOWN_FILE = os.path.join(VERIF, "known_findings.json")
 
